@@ -495,6 +495,17 @@ def validate_rejects_short_index(crate, wide=False):
     res.functions = ["<BPTreeFileIndex<K> as FileIndexTrait<K>>::validate", "IndexHeader::{is_written,version,key_size,blob_size,magic_byte}", "File::size"]
     res.bounds = "arbitrary header / tree meta / file size; records_count < 2^40, record_header_size < 2^20, leaves_offset < 2^60 (no wrap in the expected-length arithmetic)"
     ex = P.mk_executor(crate, cap=2, loop_bound=3, inline=[r"^IndexHeader::(is_written|version|key_size|blob_size|magic_byte)$", r"^File::size$"])
+    MUL = z3.Function("product_u64_u64", z3.BitVecSort(64), z3.BitVecSort(64), z3.BitVecSort(128))
+    if wide:
+        # the double-width product is an uninterpreted function here: the claims follow from how the code USES the
+        # product (high half zero, low half added and compared), not from what multiplication computes — this keeps
+        # every query free of 128-bit multipliers (they made the obligation time out on a loaded machine, probe P28)
+        def h_checked_mul_uf(ex_, st_, frame, t, nf, args, dty):
+            a, b = args[0], args[1]
+            w = MUL(a.t, b.t)
+            ov = z3.Extract(127, 64, w) != z3.BitVecVal(0, 64)
+            return [(S.none(dty), ov), (S.some(Sym(z3.Extract(63, 0, w), a.ty), dty), z3.Not(ov))]
+        ex.summaries.insert(0, (re.compile(r"^core::num::(<impl \w+>::)?checked_mul$"), h_checked_mul_uf))
     st = State()
     idx = Obj("blob::index::bptree::core::BPTreeFileIndex<K>")
     f, size, synced = file_obj(crate, st, "indexfile")
@@ -520,10 +531,10 @@ def validate_rejects_short_index(crate, wide=False):
     res.paths = len(outs)
     need = leaves + hv["records_count"] * hv["record_header_size"]
     if wide:
-        # no bound on the header values: the expected length is computed in 128(+1) bits (a corrupted header may hold anything)
+        # no bound on the header values: the expected length is computed in 128(+1) bits, product uninterpreted (a corrupted header may hold anything)
         W = 129
         # the same double-width product term the checked_mul summary builds (operands in the code's order), one more bit for the sum
-        prod = z3.ZeroExt(64, hv["records_count"]) * z3.ZeroExt(64, hv["record_header_size"])
+        prod = MUL(hv["records_count"], hv["record_header_size"])
         need_w = z3.ZeroExt(W - 64, leaves) + z3.ZeroExt(1, prod)
     for o in outs:
         if o.status in ("infeasible", "unwind"):
